@@ -695,7 +695,8 @@ def main(argv):
         discharged=n_dis,
         checker_cmd="cargo kani -Z function-contracts -Z stubbing -Z unstable-options --harness <unit> --exact  (on a scratch copy of /repo's working tree with the contract overlay; driver: bin/check %s --tier %s)" % (prop, tier),
         trusted_base=trusted,
-        explanation=getattr(pm, "EXPLANATION", ""),
+        explanation=(getattr(pm, "EXPLANATION", "") or getattr(pm, "MANIFEST", {}).get("text", "") or "see DESIGN.md section 9") + " | units: %d proved for their stated domain, %d bounded, %d time-bounded searches (inconclusive ones decide nothing)" % (
+            len([r for r in obligations if r.status == "discharged" and r.unit.level == "P"]), len([r for r in obligations if r.status == "discharged" and r.unit.level == "B"]), len([r for r in results if r.unit.kind == "search"])),
         proved_units=[r.unit.name for r in obligations if r.status == "discharged" and r.unit.level == "P"],
         bounded_units=[dict(unit=r.unit.name, bound=r.unit.bound) for r in obligations if r.status == "discharged" and r.unit.level == "B"],
         vacuity_guards=[dict(unit=r.unit.name, status=r.status) for r in results if r.unit.kind == "canary"],
